@@ -61,6 +61,9 @@ THEOREMS = [
     "Verif.C06.scan_program_pixel_time",
     "Verif.C06.crop_then_downsample",
     "Verif.C06.flip_then_crop",
+    "Verif.C06.regular_ranges",
+    "Verif.C06.regular_establishes",
+    "Verif.C06.regular_row_step",
 ]
 RULE = (
     "kymographs and scans built from generated info waves (P<=5 pixels, <=6 lines/frames, k<=3 samples per pixel, "
@@ -227,6 +230,10 @@ def sop_token(op):
 
 
 def ops(case):
+    if case["kind"] == "regular":
+        lay = case["layout"]
+        t0 = case.get("start", bc.START) + lay["lead_in"] * case["dt"]
+        return [f"c06.regular {t0} {lay['P']} {lay['lines']} {lay['k']} {lay['dead']} {case['dt']}"]
     if case["kind"] == "kymo":
         img, ranges = kymo_reference(case)
         px = Fraction(case["pixel_nm"]) / 1000
@@ -252,7 +259,7 @@ def ops(case):
 def build(case):
     iw = layout_of(case)
     ch = {"red": case["counts"]}
-    if case["kind"] == "kymo":
+    if case["kind"] in ("kymo", "regular"):
         return bc.make_kymo(iw, case["layout"]["P"], ch, pixel_size_nm=case["pixel_nm"], dt=case["dt"], start=case.get("start", bc.START))
     return bc.make_scan(iw, case["layout"]["P"], case["layout"]["L"], ch, fast_axis=case["fast"], slow_axis=case["slow"],
                         scan_count=case.get("scan_count", 0), dt=case["dt"], start=case.get("start", bc.START))
@@ -381,10 +388,20 @@ def show_scan(s):
             f"ppl={int(s.pixels_per_line)} lpf={int(s.lines_per_frame)} start={int(s.start)} stop={int(s.stop)}")
 
 
+def show_timing(k):
+    """line ranges and per-pixel timestamps of a freshly built kymograph (the acquisition timing the model's
+    `regularImg` describes)"""
+    rs = "[" + ",".join(f"{int(a)}:{int(b)}" for a, b in k.line_timestamp_ranges()) + "]"
+    ts = np.asarray(k.timestamps)
+    return f"ranges={rs} ts=[" + ";".join(",".join(str(int(v)) for v in row) for row in ts) + "]"
+
+
 def impl(case):
     try:
         with bc.quiet():
             obj = build(case)
+            if case["kind"] == "regular":
+                return [show_timing(obj)]
             show0 = show_kymo if case["kind"] == "kymo" else show_scan
             for op in case["program"]:
                 if case.get("ask_first", True):
@@ -477,6 +494,13 @@ def plain_time_string_ns(text):
 
 def oracle(case, ia):
     ans = ia[0]
+    if case["kind"] == "regular":
+        # from a plain walk over the info wave: a line runs from its first used sample to one period past its last one,
+        # a pixel's timestamp is the (floored) mean of its first and last sample
+        img, ranges = kymo_reference(case)
+        want = ("ranges=[" + ",".join(f"{a}:{b}" for a, b in ranges) + "] ts=[" +
+                ";".join(",".join(str(a + (b - a) // 2) for _, a, b in row) for row in img) + "]")
+        return None if ans == want else f"timing of a regular kymograph: implementation {ans[:200]}, info wave says {want[:200]}"
     if case["kind"] == "kymo":
         img, ranges0 = kymo_reference(case)
         P0 = len(img)
@@ -753,7 +777,7 @@ def oracle(case, ia):
 
 
 def nontrivial(case, ia):
-    return len(case["program"]) > 0
+    return len(case["program"]) > 0 or case["kind"] == "regular"
 
 
 def tags(case, r):
@@ -990,12 +1014,25 @@ def cases(tier, rng):
             yield dict(obj, stream="small-scope", program=[o])
         # second level: the alphabet is re-derived on a coarser grid to keep the product finite
         r2 = rng.fork("k2")
-        a1 = alpha if not quick else r2.sample(alpha, min(len(alpha), 40))
+        # pairs: the user-style items (hundreds of bound combinations at level one) enter with a sample
+        items = [o for o in alpha if o[0] in ("get", "getstep", "scalar")]
+        alpha2 = [o for o in alpha if o[0] not in ("get", "getstep", "scalar")] + r2.sample(items, min(len(items), 25))
+        a1 = alpha2 if not quick else r2.sample(alpha, min(len(alpha), 40))
         a2 = kymo_alphabet(obj, rng=r2, full=False)
         if quick:
             a2 = r2.sample(a2, min(len(a2), 40))
         for o1, o2 in itertools.product(a1, a2):
             yield dict(obj, stream="small-scope", program=[o1, o2])
+    # ---- acquisition timing of regular kymographs (what `regularImg` of the model claims; theorem regular_establishes)
+    for P, L, k, lead, dead, dt in itertools.product((1, 2, 3), (1, 2, 3), (1, 2, 3), (0, 2), (0, 1, 3), (12800, 16)):
+        if quick and (P + L + k + lead + dead) % 2 and dt == 16:
+            continue
+        yield dict(kymo_case(P, L, k, lead, dead, dt=dt), kind="regular", stream="small-scope", program=[])
+    rr = rng.fork("c06-regular")
+    for i in range(40 if quick else 600):
+        sub = rr.fork(i)
+        yield dict(kymo_case(sub.randint(1, 6), sub.randint(1, 7), sub.randint(1, 4), sub.randint(0, 4), sub.randint(0, 5),
+                             dt=sub.choice([12800, 1000, 16]), salt=i), kind="regular", stream="random", program=[], subseed=i)
     # ---- pixel sizes that are not binary fractions: the crop is executed in floating point (cropf)
     yield from float_crop_cases(quick, rng)
     sobjs = [scan_case(3, 2, 3, 1, 1, 1, 2, 0, 1), scan_case(2, 3, 2, 2, 0, 1, 0, 1, 0), scan_case(3, 3, 1, 1, 0, 1, 1, 0, 1)]
@@ -1012,8 +1049,10 @@ def cases(tier, rng):
             yield dict(obj, stream="small-scope", program=[o])
         r2 = rng.fork("s2")
         light = quick or oi >= n_full
-        a1 = alpha if not light else r2.sample(alpha, min(len(alpha), 40 if oi < n_full else 15))
-        a2 = alpha if not light else r2.sample(alpha, min(len(alpha), 25 if oi < n_full else 12))
+        items = [o for o in alpha if o[0] == "get"]
+        alpha2 = [o for o in alpha if o[0] != "get"] + r2.sample(items, min(len(items), 16))
+        a1 = alpha2 if not light else r2.sample(alpha, min(len(alpha), 40 if oi < n_full else 15))
+        a2 = alpha2 if not light else r2.sample(alpha, min(len(alpha), 25 if oi < n_full else 12))
         for o1, o2 in itertools.product(a1, a2):
             # timestamps of the second op must be drawn for the derived object; keep index/slice/crop ops only
             if o2[0] == "slicet" or (o2[0] == "get" and o1[0] in ("index", "slice", "slicet", "get") and r2.chance(0.6)):
